@@ -490,6 +490,19 @@ def jobs_C10():
     for F in ('Fq', 'Fr', 'Fp'): jobs.append((f'min {F} limb-level wrapper functions', check_w_u32, (F,)))
     for b in ('ark', 'min'):
         for F in ('Fq', 'Fr', 'Fp'): jobs.append((f'{b} {F} wrapper arithmetic wiring', check_w_arith, (b, F)))
+    jobs += jobs_kernels()
+    return jobs
+
+def jobs_kernels():
+    """K layer: the generated fiat-crypto kernels of the 32-bit backend, integer-exact (dv/fiat.py)"""
+    from . import fiat
+    jobs = []
+    for f in ('fq', 'fr', 'fp'):
+        jobs.append((f'min {f} fiat primitives', fiat.check_primitives, (f,)))
+        jobs.append((f'min {f} fiat nonzero/selectznz/to_bytes/from_bytes/set_one/msat', fiat.check_byte_kernels, (f,)))
+        jobs.append((f'min {f} fiat add/sub/opp', fiat.check_kernels, (f, ['add', 'sub', 'opp'])))
+        for fn in ('mul', 'square', 'from_montgomery', 'to_montgomery'):
+            jobs.append((f'min {f} fiat {fn}', fiat.check_kernels, (f, [fn])))
     return jobs
 
 def jobs_C11():
@@ -500,11 +513,21 @@ def jobs_C11():
     for F in ('Fq', 'Fr', 'Fp'): jobs.append((f'min {F} limb/byte packing of the 32-bit wrapper', check_w_u32, (F,)))
     for b in ('ark', 'min'):
         for F in ('Fq', 'Fr', 'Fp'): jobs.append((f'{b} {F} checked parsing', check_bytes_checked, (b, F)))
+    from . import fiat
+    for f in ('fq', 'fr', 'fp'):
+        # conversions into / out of the Montgomery domain; to_montgomery is decided for unreduced inputs (what from_raw_bytes feeds it)
+        for fn in ('from_montgomery', 'to_montgomery'): jobs.append((f'min {f} fiat {fn}', fiat.check_kernels, (f, [fn])))
+        jobs.append((f'min {f} fiat primitives', fiat.check_primitives, (f,)))
+        jobs.append((f'min {f} fiat nonzero/selectznz/to_bytes/from_bytes/set_one/msat', fiat.check_byte_kernels, (f,)))
     return jobs
 
 def jobs_shared():
     """field-level jobs that C12 (backend equivalence) re-uses"""
-    return jobs_C10() + jobs_C11()
+    seen = set(); out = []
+    for j in jobs_C10() + jobs_C11():
+        if j[0] in seen: continue
+        seen.add(j[0]); out.append(j)
+    return out
 
 # ---------------------------------------------------------------------------------------------- checked parsing (both builds)
 def _seq_cmp(I, a, b, op):
